@@ -10,6 +10,7 @@ import CallbagModel.Inv.FromIter
 import CallbagModel.Inv.Fuse
 import CallbagModel.Inv.Merge
 import CallbagModel.Inv.MonSound
+import CallbagModel.Inv.PlugOpSafe
 import CallbagModel.Inv.PlugSafe
 import CallbagModel.Inv.Readable
 import CallbagModel.Inv.Relay
@@ -90,6 +91,10 @@ theorem C17_flatten_network {So Lo Si Li αo αi : Type} {Mo : Machine So Lo αo
     (H : FlatPlugSafe.HypF Mo Mi initOf) :
     ∀ s, SReach (flatPlug Mo Mi initOf) s → SafeFor 17 s :=
   fun s hs => safeFor_of_basicSafe _ s hs (FlatPlugSafe.flatPlug_basicSafe H s hs) 17 (by decide)
+
+theorem C17_member_of_concat {S1 L1 β : Type} {M1 : Machine S1 L1 β β} (h1 : Pipeable M1) (n : Nat) (hn : 0 < n) (j : Nat) :
+    ∀ s, SReach (plugOp j M1 (Concat.machine β n)) s → SafeFor 17 s :=
+  fun s hs => safeFor_of_basicSafe _ s hs (PlugOpSafe.plugOp_concat_basicSafe h1 n hn j s hs) 17 (by decide)
 
 
 /-- `share`, EVERY conformant environment (nested fan-out included): the only phase-level violations share can commit are deliveries
